@@ -60,7 +60,7 @@ let post (spec : string) : prop =
   | ["geq"; a; b] -> mk_geq (parse_view a) (parse_view b)
   | ["gt"; a; b] -> mk_gt (parse_view a) (parse_view b)
   | ["eq"; a; b] -> mk_eq (parse_view a) (parse_view b)
-  | ["neq"; a; b] -> mk_neq_noop (parse_view a) (parse_view b)
+  | ["neq"; a; b] -> mk_neq (parse_view a) (parse_view b)   (* NotEquals after fix 106df3d *)
   | ["sum"; xs; s] -> mk_sum (List.map (fun v -> VVar v) (var_list xs)) (var_ix s)
   | ["lineq"; cs; xs; k] -> mk_lin_eq (zl cs) (var_list xs) (zi k)
   | ["linle"; cs; xs; k] -> mk_lin_le (zl cs) (var_list xs) (zi k)
@@ -188,8 +188,7 @@ let known_class (line : string) : string =
       | k :: cs :: xs :: _ when List.mem k ["lineq"; "linle"; "lineqr"; "linler"; "linner"] ->
         all_zero (zl cs) (var_list xs)
       | _ -> false) specs in
-  if has "neq" then "BAD:neq_noop "
-  else if zero_lin then "BAD:lin_zero_coeffs "
+  if zero_lin then "BAD:lin_zero_coeffs "
   else match !known_hook specs with Some c -> "BAD:" ^ c ^ " " | None -> ""
 
 let fmt_isols (l : int list list) = if l = [] then "-" else String.concat " " (List.map (fun s -> String.concat "," (List.map string_of_int s)) l)
